@@ -3,6 +3,7 @@
 
 from rzilcompiler.Transformer.Effects.Effect import Effect, EffectType
 from rzilcompiler.Transformer.Pures.Pure import Pure
+from rzilcompiler.Transformer.Pures.Bool import Bool
 from rzilcompiler.Transformer.Pures.BooleanOp import BooleanOp
 from rzilcompiler.Transformer.Pures.CompareOp import CompareOp
 
@@ -19,7 +20,7 @@ class Branch(Effect):
         """Returns the RZIL ops to write the variable value.
         :return: RZIL ops to write the pure value.
         """
-        if isinstance(self.cond, BooleanOp) or isinstance(self.cond, CompareOp):
+        if isinstance(self.cond, (BooleanOp, CompareOp, Bool)):
             cond = self.cond.il_read()
         else:
             cond = f"NON_ZERO({self.cond.il_read()})"
